@@ -9,3 +9,17 @@
 (declare-fun props_accepts (V String) Bool)
 ; a built model is a value (never the "absent" marker)
 (assert (forall ((e V) (v V)) (! (not (= (build e v) v_absent)) :pattern ((build e v)))))
+; Draft-6 6.1 multipleOf under binary64 arithmetic: uninterpreted here (spec/draft6.py multiple_of is its executable twin)
+(declare-fun d6_multiple (V V) Bool)
+; ---- the validation call chain, one level below `sem`
+(declare-fun vrejects (V V) Bool)        ; a validator object rejects a value (its __call__ raises ValidationError)
+(declare-fun validators_of (V) V)        ; the list an element's `validators` property returns
+(declare-fun csem (V V) Bool)            ; the element's `construct` succeeds on the value
+(declare-fun cbuild (V V) V)             ; ... and this is what it returns
+(define-fun accepts_all ((vs V) (v V)) Bool
+  (forall ((j Int)) (=> (and (<= 0 j) (< j (seq.len (seqof vs)))) (not (vrejects (seq.nth (seqof vs) j) v)))))
+; SEM-DEF: for element *instances* (everything whose call is Element.__call__): a passed value is accepted iff every
+; validator accepts it and construct succeeds; the result is construct's
+(assert (forall ((e V) (v V)) (! (=> (not (k_np v)) (and (= (sem e v) (and (accepts_all (validators_of e) v) (csem e v)))
+                                                           (= (build e v) (cbuild e v)))) :pattern ((sem e v)))))
+(assert (forall ((e V) (v V)) (! (=> (not (k_np v)) (= (build e v) (cbuild e v))) :pattern ((build e v)))))
